@@ -509,7 +509,7 @@ def sym_min(*a, **k):
     if len(a) == 1:
         a = tuple(a[0])
     if not any(is_sym(v) for v in a):
-        return _min(*a, **k)
+        return _min(a, **k)
     r = a[0]
     for v in a[1:]:
         r = If(v < r, v, r)
@@ -520,7 +520,7 @@ def sym_max(*a, **k):
     if len(a) == 1:
         a = tuple(a[0])
     if not any(is_sym(v) for v in a):
-        return _max(*a, **k)
+        return _max(a, **k)
     r = a[0]
     for v in a[1:]:
         r = If(v > r, v, r)
